@@ -262,6 +262,10 @@ class Ctx:
                 return None
             raise
         self.log("shut-done", node)
+        if self.h.get("sraise") and node % 2 == 0:
+            # a handler may fail: the shutdown of the others goes on all the same, and a
+            # handler that ended, however it ended, did not have to be cancelled
+            raise VExc(node, ("shutdown of %d failed" % node,))
 
     def exc_tag(self, exc, node=0):
         """(kind, origin): origin = node whose body raised the object, or -s
